@@ -221,6 +221,10 @@ func init() {
 	}
 	models[rp+"Write"] = func(x *Exec, fr *Frame, st *State, pc *preparedCall, k func(*State, []Value)) {
 		w := x.asTermAny(pc.recv)
+		// http.ResponseWriter.WriteHeader panics for a status code outside 100..999
+		code := pc.args[0].(IntV).T
+		x.oblige(fr, st, "pre", "Responder.Write/status-code@"+x.siteLabel(pc.e), And(Ge(code, IntLit(100)), Le(code, IntLit(999))), pc.e)
+		x.Obls[len(x.Obls)-1].Tag = "C16"
 		x.recordStatus(st, w, pc.args[0].(IntV).T)
 		rb := st.ghostArr("respbody", SInt)
 		st.setGhostArr("respbody", Store(rb, w, x.identityOf(st, pc.args[1])))
@@ -303,8 +307,17 @@ func init() {
 	noEffect := func(x *Exec, fr *Frame, st *State, pc *preparedCall, k func(*State, []Value)) {
 		k(st, []Value{x.freshErr(st, "closeerr")})
 	}
-	models["io.Closer.Close"] = noEffect
-	models["io.ReadCloser.Close"] = noEffect
+	// Closing the body of a request read by http.ReadRequest discards what is left of it
+	// (net/http: body.Close consumes the body unless the server asked for an early close).
+	closeBody := func(x *Exec, fr *Frame, st *State, pc *preparedCall, k func(*State, []Value)) {
+		id := x.asTermAny(pc.recv)
+		src := x.ghostSel(st, "bodyof", id)
+		cur := x.ghostSel(st, "bodypending", src)
+		x.ghostSet(st, "bodypending", src, Ite(And(Ne(src, IntLit(0)), Eq(cur, id)), IntLit(0), cur))
+		k(st, []Value{x.freshErr(st, "closeerr")})
+	}
+	models["io.Closer.Close"] = closeBody
+	models["io.ReadCloser.Close"] = closeBody
 	models["reservoir/cache.EntryData.Close"] = noEffect
 	models["io.ReadSeekCloser.Close"] = noEffect
 }
